@@ -377,3 +377,18 @@ def nn_weights_nan_near_hull(case, tag, event):
     return False
 
 KNOWN_CLASSES["nn_weights_nan_near_hull"] = nn_weights_nan_near_hull
+
+def bulk_load_mixed_magnitude_hang(case, tag, event):
+    """a bulk loader that does not return on a point set mixing magnitudes more than 2^200 apart (e.g. 1e-42 and 1e57, all valid): the angular
+    hull structure of the sweep (Hull::get) walks for ever"""
+    if tag != "hang" or not case.ops:
+        return False
+    for op in case.ops:
+        pts = _bulk_points(op) if op.split()[0].startswith("bulk") else None
+        if pts:
+            mags = [abs(v) for p in pts for v in p if v != 0]
+            if mags and max(mags) / min(mags) > Fraction(2) ** 200:
+                return True
+    return False
+
+KNOWN_CLASSES["bulk_load_mixed_magnitude_hang"] = bulk_load_mixed_magnitude_hang
